@@ -45,6 +45,9 @@ package client
 //@   ensures [refused] err == nil ==> old(commitment.GetCommitment(info.UpdateKey, info.MultihashCode).0 != info.UpdateCommitment) && old(info.DidSuffix != "" && info.RevealValue != "" && len(info.Patches) > 0)
 //@ func NewRecoverRequest(info) (ret, err)
 //@   requires info != nil
+// (C08: like create, a recover request with equal next commitments re-uses a key and must be refused;
+//  this clause fails on the current tree and is a recorded finding, see known_findings.txt)
+//@   ensures [distinct] err == nil ==> old(info.RecoveryCommitment != info.UpdateCommitment)
 //@   ensures [refused] err == nil ==> old(commitment.GetCommitment(info.RecoveryKey, info.MultihashCode).0 != info.RecoveryCommitment) && old(info.DidSuffix != "" && info.RevealValue != "")
 //@ func NewDeactivateRequest(info) (ret, err)
 //@   requires info != nil
